@@ -16,73 +16,73 @@ TECH = "machine-checked proof in Coq 8.16.1 about an executable Gallina model; m
 
 P = {
  "C01": dict(
-  text="Partial. Theorems (all inputs): exact crossing/validity oracles are sound and complete w.r.t. their Prop definitions; every output vertex is a routed pixel centre (provenance); no-collapse outputs consist of routed edges only; the full statement is refuted for the faithful model by the F5 witness when one is known. The global implication 'valid input => no two output edges cross' (Guibas-Marimont deformation argument) is NOT a theorem: it is decided on every run by exact search over generated valid polygons on the implementation, with the model held to the code by vm_compute correspondence (edge multisets).",
-  note="Trusted: Coq kernel+vm_compute; hand-written Index/Snap model tied by correspondence (tie H) on every run; float predicates modelled by exact integer versions (checked envelope on dyadic grids); search is not proof for the global clause.",
-  tech=TECH + " (tie H: vm_compute correspondence); exact-arithmetic search for the unproved global clause", ref="DESIGN.md 6 C01"),
+  text="Partial. Theorems (all inputs): exact crossing oracle (cross_b_spec, parametric form over Q), sound validity oracle, half-pixel closeness of every routed edge (routed_edge_close), the sweep lemma of snap rounding; C01_refuted / C01_refuted_implication: the full statement is machine-checked FALSE for the faithful model on a valid polygon with a hole (finding F5), replayed on the implementation. The global implication 'valid input => no crossing' (Guibas-Marimont deformation argument) is NOT a theorem: decided on every run by exact search over generated valid polygons on the implementation; model tied by vm_compute correspondence on edge multisets.",
+  note="Trusted: Coq kernel+vm_compute; hand-written Index/Snap model tied by correspondence (tie H) on every run and G2 for the leaf functions; float predicates modelled by exact integer versions (checked envelope); search is not proof for the global clause. Known finding F5 attributed by mechanism.",
+  tech=TECH + " (tie H + G2); exact-arithmetic search for the unproved global clause", ref="DESIGN.md 6 C01"),
  "C02": dict(
-  text="Theorems for all segments, hot sets and depths: the integer pixel test equals 'closed segment meets half-open square' (lineIntersects_spec, via 1-D Helly over Q); routed centres are centroids of occupied pixels; ordering/NoDup/completeness of the quadtree descent as far as proved (see evidence 'partial'). Correspondence: snapClosestPoints, lineIntersects (incl. 128-bit product path) and non-collapsing polygons compared exactly with the model; independent exact-rational clip oracle on the implementation.",
-  note="Trusted: Coq kernel+vm_compute; hand-written Index model (addresses (x,y) instead of Morton keys, justified by C17) tied by correspondence; cmpProducts' 128-bit arithmetic modelled as exact Z products.",
-  tech=TECH + " (tie H) + independent exact-rational oracle for replay witnesses", ref="DESIGN.md 6 C02"),
+  text="Full. For all segments, hot sets, depths and every tie: lineIntersects = 'closed segment meets half-open box' (over Q); findIntersectingQuadrants returns exactly the occupied children met, NoDup, in travel order (mutex and 'certain' shortcuts justified); by induction over levels the route is the NoDup list of occupied pixels met, strongly sorted by travel order, starting at the pixel of a and ending at the pixel of b, reversing with the segment — on any grid whose stored extent covers its pixels (FromTileMatrixSet-style grids qualify). C02_source_tie: containsPoint, getInfiniteQuadrant, the quadrantsToCheck table, oneIfRight/Top are regenerated from pointindex.go on every run and proved equal to the model. The polygon-level clause is decided by the exact correspondence and an independent exact-rational oracle.",
+  note="Trusted: Coq kernel+vm_compute; Index model with (x,y) addresses instead of Morton keys (justified by C17); cmpProducts' 128-bit arithmetic modelled as exact Z products (correspondence includes RD-sized operands); hypothesis hs <> [] and the root-extent condition are explicit.",
+  tech=TECH + " (tie G2 + H) + independent exact-rational oracle for replay witnesses", ref="DESIGN.md 6 C02"),
  "C03": dict(
-  text="Theorems at integer/rational level for all inputs: every routed point is the centroid min + k*S + S/2 of an occupied pixel of that level with S = 2^(d-l)*res (centre formula), provenance of every output coordinate, deviation bound against the ideal centre. Float conversion (ToGeomOrd) and DeviationStats' float arithmetic are an explicit envelope checked by the harness with exact rationals on every built-in quadtree set.",
-  note="Trusted: Coq kernel; Index/Snap model tied by correspondence (coordinate multisets); level arithmetic of FromTileMatrixSet checked on the implementation through the verif hook; floats outside the theorems.",
-  tech=TECH + " (tie H) + exact-rational oracle on built-in tile matrix sets", ref="DESIGN.md 6 C03"),
+  text="Full at integer/rational level: centre formula min + k*S + S/2, every routed point is the centroid of the pixel of an input vertex, deviation bound against the ideal centre (exact above the deepest level / for even resolution, + half an integer unit 0.5e-10 otherwise: the literal bound is refuted by that half unit, below the tool's resolution). Source ties: getQuadrantExtentAndCentroid regenerated from pointindex.go (G2); validation and snapping both use slices.Max of the ids (CLI glue from the ASTs). Float conversion and DeviationStats' float arithmetic are an explicit envelope checked with exact rationals on all 7 built-in sets accepted by validation.",
+  note="Trusted: Coq kernel; model tied by correspondence (coordinate multisets, incl. real grids); level arithmetic read back through the verif hook; floats outside the theorems.",
+  tech=TECH + " (tie G2 + CLI glue + H) + exact-rational oracle on built-in tile matrix sets", ref="DESIGN.md 6 C03"),
  "C04": dict(
-  text="Partial. Clause 1 (every output vertex is the pixel centre of an input vertex) is a theorem for all inputs (provenance through every stage). Clause 2 (half-pixel closeness) is proved for routed edges; in general it is refuted by F5. Clause 3 (coverage) is not a theorem. Clauses 2-3 are decided on every run by exact search (Chebyshev box test, even-odd coverage at sample locations) on the implementation; model tied by correspondence on edge and point multisets.",
-  note="Trusted: as C01. Search is not proof for clauses 2 (general) and 3.",
-  tech=TECH + " (tie H); exact-arithmetic search for clauses 2-3", ref="DESIGN.md 6 C04"),
+  text="Clause 1 FULL (C04_clause1_vertex_provenance: every output vertex is the centre of the pixel of an input vertex, through routing, spike removal, splitting, dedupe, matching). Clause 2 FULL for routed edges (every point between two centres of a routed chain is within half a pixel, Chebyshev, of the source edge) and REFUTED in general (C04_refuted, finding F5, valid-polygon witness replayed on the implementation). Clause 3 (coverage) is not a theorem: decided by exact search (even-odd coverage at sample locations, hole-in-shell test) on the implementation; correspondence on ring nesting and points.",
+  note="Trusted: as C01. Search is not proof for clause 3 and for clause 2 beyond routed edges. Known finding F5 attributed by mechanism.",
+  tech=TECH + " (tie H + G2); exact-arithmetic search for clauses 2 (general) and 3", ref="DESIGN.md 6 C04"),
  "C18": dict(
-  text="Partial. Theorems: kmpDeduplicate returns a subsequence and is the identity without step-backs; splitRing conserves directed edges (up to the documented whole-ring reversal); dedupe only deletes rings; conservation for kmpDeduplicate on the visits<=2 class as far as proved (bounded enumeration theorem with the bound in the statement otherwise). The nesting clause (hole inside shell) is search only. Oracle on the implementation: routed-run test, nesting, exact signed-area accounting on polygons filtered to the class by the implementation's own routing.",
-  note="Trusted: as C01; class membership is decided with the implementation's own routing output through the verif hook.",
-  tech=TECH + " (tie H); exact-arithmetic search for the nesting clause", ref="DESIGN.md 6 C18"),
+  text="Partial (nesting clause is search only). Theorems for all inputs: splitRing conserves directed edges and signed area (up to the documented whole-ring reversal), dedupeInnersOuters deletes only cancelling shell/hole pairs, per-level assembly conserves edges modulo such pairs, kmpDeduplicate returns a subsequence, is the identity on repeat-free chains, and ON THE CLASS OF THE PROPERTY (no centre at three positions) never fails and conserves directed edges modulo cancelling pairs (C18_kmp_conserves_le2, every ring, any length); the class boundary is real (F5 at four visits). Oracle on the implementation: routed-run test, nesting, exact signed-area accounting, class decided by the implementation's own routing.",
+  note="Trusted: as C01; class membership via the verif hook.",
+  tech=TECH + " (tie H incl. exhaustive chains); exact-arithmetic search for the nesting clause", ref="DESIGN.md 6 C18"),
  "C05": dict(
-  text="Theorems at model level for all polygons inside the grid: splitRing totality/shape/orientation/repeat-freeness under the hit-accounting hypothesis, keep policy, reverse flag flips exactly the polygon rings (see evidence for which are full and which partial). Correspondence on ring structure (length, area sign, repeats) for all four flag combinations; oracle checks every returned ring on the implementation.",
-  note="Trusted: as C01; orientation is the exact integer sign (float sign agrees except on zero-area rings, which the property exempts).",
-  tech=TECH + " (tie H)", ref="DESIGN.md 6 C05"),
+  text="Full at model level for all polygons inside the grid, valid or not: splitRing is total for any flags, returns repeat-free rings when the flags contain every repeated vertex, hit accounting flags exactly the centres recorded twice, shell CCW-or-zero / holes CW-or-zero (exactly opposite with reverse), every ring >= 3 vertices without keep, collapsed parts last as 1-2 vertex rings with keep, never an empty list, keep policy prefix theorem; routing premises discharged from C02. One explicit premise remains (kmp_short_nodup: a spike-removal output of < 3 vertices is repeat-free), proved only for bounded chains.",
+  note="Trusted: as C01; orientation is the exact integer sign (float sign agrees except on zero-area rings, exempt in the property).",
+  tech=TECH + " (tie H on ring structure for all four flag sets, real and synthetic grids)", ref="DESIGN.md 6 C05"),
  "C06": dict(
-  text="Partial. Theorems for all inputs: kmpTable/kmpSearch/kmpSearchAll never index out of range and terminate within the model's fuel (independent of the non-standard shift); a reported match is a match; kmpDeduplicate totality as far as proved (see evidence 'partial': open obligations are named). Exhaustive small-scope enumeration inside Coq (bound stated). Model-level OutOfFuel = would hang. Wall-clock, memory, aliasing are measured by the harness only (watchdog, c*n^2 bound).",
-  note="Trusted: as C01; time/memory/stack are runtime behaviour the model cannot exhibit.",
-  tech=TECH + " (tie H); harness watchdog for runtime behaviour", ref="DESIGN.md 6 C06"),
+  text="Partial, with a machine-checked refutation. Theorems for all inputs: kmpTable/kmpSearch/kmpSearchAll never index out of range and terminate (independent of the non-standard shift), splitRing is total, kmpDeduplicate never exhausts its fuel (no hang at model level) and can fail only through ring[-1] (exactly when matches=1 and reverse matches=0, not known reachable) or RemoveSequences' slice bounds; total on chains without step back and on the C18 class; bounded totality by enumeration inside Coq. C06_kmp_total_refuted: a 33-vertex ring over 3 centres makes it fail with SliceBounds — replayed: the real SnapPolygon panics (known finding F13). Runtime behaviour (time, memory, aliasing) is measured by the harness only.",
+  note="Trusted: as C01; time/memory/stack are runtime behaviour the model cannot exhibit. Known findings F11 (level > 32) and F13 attributed by mechanism.",
+  tech=TECH + " (tie H incl. exhaustive chains through code and model); harness watchdog for runtime behaviour", ref="DESIGN.md 6 C06"),
  "C07": dict(
-  text="Theorems: the model is a function of (grid, polygon, level set, flags); results are independent of the order (and multiplicity) in which levels are processed; reversing any ring of non-zero area leaves the normalised ring, hence the result, unchanged (xprod (rev r) = - xprod r); the reverse flag reverses exactly the rings of the polygon part. Harness: repeated in-process runs, permuted/duplicated id lists, reversed rings, toggled flag, compared bit-for-bit on the implementation.",
-  note="Trusted: as C01; Go map iteration is modelled as arbitrary order over keyed/ordered lists; zero-area input rings are outside the reversal theorem (valid polygons have non-zero area).",
+  text="Full at model level: the model is a function; results do not depend on the order or multiplicity in which levels are processed; reversing any subset of rings of non-zero area leaves the result unchanged (xprod (rev r) = - xprod r; the hot set enters only through membership); the reverse flag reverses exactly the rings of the polygon part and nothing else. Harness: repeated runs, permuted/duplicated id lists, reversed rings, toggled flag, bit-for-bit on the implementation, incl. tile matrix sets in tiny units.",
+  note="Trusted: as C01; Go map iteration modelled as arbitrary order over keyed/ordered lists; zero-area input rings are outside the reversal theorem (valid polygons have non-zero area).",
   tech=TECH + " (tie H) + repetition on the implementation", ref="DESIGN.md 6 C07"),
  "C08": dict(
-  text="Theorems: result keys are requested levels only; on a round grid (coarser resolution exactly 2^(d-L) times the deeper one) extents, centroids, occupied sets and routed centres for level l computed from deepest level L equal those computed from any deeper level d; a concrete non-round grid shows the hypothesis is needed. Levels are independent by construction of the per-level model, which the correspondence checks on multi-level requests.",
-  note="Trusted: as C01; the decomposition of the interleaved Go loop into per-level functions is a modelling decision validated by the correspondence on every id subset.",
-  tech=TECH + " (tie H)", ref="DESIGN.md 6 C08"),
+  text="Full: result keys are requested levels only; on a round grid (coarser resolution exactly 2^(d-L) times the deeper one, e.g. 2^d | XSpan) extents, centroids, occupied sets and routed centres for level l computed from deepest level L equal those computed from any deeper level d; a concrete non-round grid shows the hypothesis is needed; address computation and pixel extent regenerated from source (G2). Levels are independent by construction of the per-level model, which the correspondence checks on every id subset.",
+  note="Trusted: as C01; the decomposition of the interleaved Go loop into per-level functions is a modelling decision validated by the correspondence on all id subsets (see DESIGN 9).",
+  tech=TECH + " (tie G2 + H over all id subsets)", ref="DESIGN.md 6 C08"),
  "C09": dict(
-  text="Full: a polygon is indexed iff EVERY vertex lies in the half-open integer extent [min, min+2^d*res) (floor division), any vertex outside gives OutsideGrid, SnapPolygon then panics or returns the empty result with ignore-outside-grid, and geometry is produced only if all vertices are inside — theorems for all grids with positive resolution, all polygons, all sides and distances. F2 regression example. Correspondence on outcomes {OutsideGrid, empty, snapped} for border-hugging polygons.",
-  note="Trusted: Coq kernel; Index model tied by correspondence; 'outside by any amount' is on the tool's 1e-10 integers (a float less than one unit outside truncates onto the border: below resolution).",
-  tech=TECH + " (tie H)", ref="DESIGN.md 6 C09"),
+  text="Full: a polygon is indexed iff EVERY vertex lies in the half-open integer extent [min, min+2^d*res), any vertex outside gives OutsideGrid, SnapPolygon then panics or returns the empty result with ignore-outside-grid, geometry is produced only if all vertices are inside — for all grids with positive resolution, all polygons, all sides and distances. C09_source_tie: InsertPoint's address computation (floor division) and InsertCoord's range test are regenerated from pointindex.go on every run and proved equal to the model. F2 regression example.",
+  note="Trusted: Coq kernel; 'outside by any amount' is on the tool's 1e-10 integers (a float less than one unit outside truncates onto the border: below resolution).",
+  tech=TECH + " (tie G2 + H)", ref="DESIGN.md 6 C09"),
  "C10": dict(
-  text="Theorems over all feature streams, target counts, per-feature outcomes and ALL schedules of the reader/snapper/router/writer transition system: per-target invariant received++inflight++future = expected, exactly-once in source order with only the target's geometry, unique final state. Correspondence by recorded histories from the real ProcessFeatures with fake sources/targets.",
+  text="Full over all feature streams, target counts, per-feature outcomes and ALL schedules of the 19-label reader/snapper/router/writer transition system: per-target invariant received++inflight++future = expected, exactly once in source order with only the target's geometry, unique final state, no panic under the contract of processPolygonFunc. Correspondence by recorded histories from the real ProcessFeatures with fake sources/targets (child processes, GOMAXPROCS 1-16, delay profiles).",
   note="Trusted: Coq kernel; Go channel/WaitGroup semantics as modelled (rendezvous LTS); fake source/targets.",
   tech=TECH + " (tie H by histories); invariants over all reachable states", ref="DESIGN.md 6 C10"),
  "C11": dict(
-  text="Theorems at model level for all interleavings: no deadlock, strictly decreasing measure (termination under any scheduler), return only after every target finished and received everything. Partial: data races and leaked goroutines are runtime behaviour no model exhibits; they are searched dynamically (-race build, goroutine accounting) as supporting evidence.",
+  text="Full at model level for all interleavings, no fairness assumed: no deadlock, strictly decreasing measure (every execution finite), return only after every target finished and received everything, reader and snapper past their last blocking operation at return. Partial: data races and leaked goroutines are runtime behaviour no model exhibits; searched dynamically (second harness binary built -race, goroutine accounting) as supporting evidence.",
   note="Trusted: as C10; race detector and goroutine accounting are search, not proof.",
   tech=TECH + " (tie H by histories); -race/goroutine search for the runtime clause", ref="DESIGN.md 6 C11"),
  "C12": dict(
-  text="Theorems for every stream and every page size p>0 about the paged-writer state machine: all rows in order, n/p+1 transactions, extent = bounding box of all non-empty geometries, one rtree entry per non-empty geometry, schema copied (srs pre-seeded by the library: known finding F10, refuted theorem). SQLite/rtree/GeoPackage library are modelled; the real TargetGeopackage is driven through the verif sqlite stand-in and the written file compared with the model.",
-  note="Trusted: Coq kernel; SQLite, go-sqlite3, the GeoPackage library and the verif stand-in for SpatiaLite functions are modelled, held to the code by correspondence.",
+  text="Full for the paged-writer state machine, every stream and every page size p>0: one row per feature in order, n/p+1 transactions, extent = bounding box of all non-empty geometries (commutative idempotent monoid), one rtree entry per non-empty geometry, schema copied; p=0 is DivZero. srs rows pre-seeded by the GeoPackage library are not overwritten: known finding F10 (C12_refuted_srs_preseeded). The real TargetGeopackage is driven through the verif SQLite stand-in and the written file compared with the model.",
+  note="Trusted: Coq kernel; SQLite, go-sqlite3, the GeoPackage library and the verif stand-in for SpatiaLite functions are modelled, held to the code by correspondence on written files.",
   tech=TECH + " (tie H on written files)", ref="DESIGN.md 6 C12"),
  "C13": dict(
-  text="Partial. Theorems: target path = dir/name_<id>ext on the safe alphabet, distinct ids give distinct files, CLI = per-table composition of writer . route . pipeline(snap cfg), overwrite forgets prior content. urfave/cli, file system and SQLite are modelled; weight is on the end-to-end correspondence of the real binary (built -tags verif) against the composition of library calls.",
+  text="Partial (urfave/cli, file system, path, SQLite modelled). Theorems: target path = dir/name_<id>ext on the safe alphabet (full path.Clean model), distinct ids give distinct files, flag plumbing, validation gate, CLI = per-table composition of writer . route . pipeline(snap cfg), overwrite forgets prior content; C13_source_tie: flag->option map, suffix format and IsQuadTree-before-DeviationStats extracted from main.go's AST on every run. Weight is on the end-to-end correspondence of the real binary (built -tags verif, also -race) against the composition of library calls.",
   note="Trusted: as C12 plus urfave/cli, path, os.",
-  tech=TECH + " (tie H on the real binary)", ref="DESIGN.md 6 C13"),
+  tech=TECH + " (CLI glue tie + tie H on the real binary)", ref="DESIGN.md 6 C13"),
  "C14": dict(
-  text="Theorems: isQuadTree soundness for every record and level, universal single-field perturbation rejection, acceptance implies pixel size = cellSize/16 under stated conditions, validation total; built-in sets by computation over data regenerated from the JSON files on every run.",
+  text="Theorems: isQuadTree soundness for every record and level, universal single-field perturbation rejection, acceptance implies pixel size = cellSize/16 under stated conditions, validation total; built-in sets by computation over data regenerated from the JSON files on every run (G3).",
   note="Trusted: Coq kernel+vm_compute; translator G3 (JSON -> Coq terms, exact decimals); float ratio test modelled over Q with the tolerance stated.",
-  tech=TECH + " (tie G for data, tie H for IsQuadTree/validate)", ref="DESIGN.md 6 C14"),
+  tech=TECH + " (tie G3 for data, tie H for IsQuadTree/validate)", ref="DESIGN.md 6 C14"),
  "C15": dict(
   text="Theorems over Q for every matrix without variable widths, both corner conventions, every tile and interior point: fromNative . toNative consistent, outside maps to none, bbox spans tile (0,0) to (W,H), all in x,y order. Partial in the float clause (9-decimal rounding, float division): checked by correspondence with margins.",
   note="Trusted: as C14; float rounding is an envelope.",
-  tech=TECH + " (tie G data, tie H)", ref="DESIGN.md 6 C15"),
+  tech=TECH + " (tie G3 data, tie H)", ref="DESIGN.md 6 C15"),
  "C16": dict(
-  text="Theorems about the model of the decoder/encoder as the code stands: decode-encode-decode, stable encoding, totality, rejection of non-positive sizes where the code rejects them; refuted theorems + known findings for what the code still gets wrong; built-in documents by computation over regenerated data.",
+  text="Theorems about the model of the decoder/encoder as the code stands: decode-encode-decode, stable encoding, totality, rejection of non-positive sizes where the code rejects them; refuted theorems + known findings (F6b, F6c) for what the code still gets wrong; built-in documents by computation over regenerated data.",
   note="Trusted: as C14; encoding/json, marshmallow, validator, defaults are modelled by their observed coercion rules, held by correspondence over mutated documents.",
-  tech=TECH + " (tie G data, tie H on mutated documents)", ref="DESIGN.md 6 C16"),
+  tech=TECH + " (tie G3 data, tie H on mutated documents)", ref="DESIGN.md 6 C16"),
  "C17": dict(
   text="Full: uniqueness, round trip, parent = key>>2, not-encodable flag and children keys are theorems for ALL 2^64 address pairs about the programs regenerated from morton.go on every run (bexpr reflection: lor-linearity shape check + unit-vector sweep + extension lemma).",
   note="Trusted: Coq kernel + vm_compute; translator G1 (Go AST -> bexpr, uint ops modulo 2^64); harness cross-checks ToZ/FromZ against the model on ~10^4 inputs per run. No axioms.",
